@@ -251,6 +251,16 @@ class Abstraction(object):
             raise Unsupported("unknown-attempt")
         return (top["ID"], top["Index"])
 
+    def batch_of(self, stack):
+        """(engine attempt id, lo, hi) when the event re-enters a Map state using MaxConcurrency for its next batch"""
+        if not stack:
+            return None
+        top = stack[-1]
+        if "Index" in top or "ID" not in top or "Range" not in top or top["ID"] not in self.ids:
+            return None
+        lo, hi = [int(x) for x in str(top["Range"]).split(":")]
+        return (top["ID"], lo, hi)
+
     def run(self):
         for k, st in enumerate(self.tr.steps):
             g = self.one(k, st)
@@ -286,8 +296,12 @@ class Abstraction(object):
                     return None
                 if ((body.get("context") or {}).get("Execution") or {}).get("Id") not in (None, self.tr.ea):
                     raise Unsupported("several-executions")
-                trig, kind = self.thread(branch_stack(body)), "event"
                 stack = branch_stack(body)
+                bt = self.batch_of(stack)
+                if bt is not None:
+                    trig, kind = (bt[0], bt[1]), "batch-event"
+                else:
+                    trig, kind = self.thread(stack), "event"
             elif f["cid"] is not None:                       # a reply
                 mid = f["cid"]
                 body = self.tr.bodies.get(mid)
@@ -305,8 +319,12 @@ class Abstraction(object):
                 if t.get("exec") != self.tr.ea:
                     raise Unsupported("several-executions")
                 mid, stack = t["id"], t["stack"]
-                trig = self.thread(stack)
-                kind = "deferred" if DELEGATES[t["name"]] == "task" else "launch"
+                bt = self.batch_of(stack) if DELEGATES[t["name"]] == "fan" else None
+                if bt is not None:
+                    trig, kind = (bt[0], bt[1]), "batch-launch"
+                else:
+                    trig = self.thread(stack)
+                    kind = "deferred" if DELEGATES[t["name"]] == "task" else "launch"
             elif t.get("name") == "on_timeout":
                 mid = t.get("id")
                 body = self.tr.bodies.get(mid)
@@ -329,16 +347,25 @@ class Abstraction(object):
                 inputs.append(["backstop"])
             else:
                 return None
+        elif kind in ("batch-event", "batch-launch"):
+            launch = kind == "batch-launch"
+            dropped = self.dropped(eng, st, mid, "launch" if launch else "event")
+            inputs.append(["batch", self.ids[bt[0]], bt[1], bt[2], launch])
+            exp["accepted"] = not dropped
+            if launch and not dropped:
+                self.info[bt[0]]["hi"] = bt[2]
         elif kind == "launch":
             par = None if trig is None else [self.ids[trig[0]], trig[1]]
             if launches:
                 if len(launches) > 1:
                     raise Unsupported("two-launches-in-a-step")
                 (eid, n, retry, got) = launches[0]
-                if got != n:
-                    raise Unsupported("map-batch")
                 self.register(eid, trig, st["timer"]["state"], n)
-                inputs.append(["launch", self.ids[eid], n, par, retry])
+                self.info[eid]["hi"] = got
+                if got != n:          # a Map using MaxConcurrency: the first batch
+                    inputs.append(["launchMap", self.ids[eid], n, got, par, retry])
+                else:
+                    inputs.append(["launch", self.ids[eid], n, par, retry])
                 exp["accepted"] = True
             else:
                 dropped = self.dropped(eng, st, mid, "launch")
@@ -561,7 +588,9 @@ class Abstraction(object):
         v = view(a)
         atts = None
         if v is not None:
-            atts = sorted([[self.ids[eid], t, sl] for eid, (t, sl) in v.items() if eid in self.ids])
+            # (PENDING slots of Map iterations whose batch has not been launched yet)
+            atts = sorted([[self.ids[eid], t, ["U" if x == "P" and j >= self.info[eid].get("hi", len(sl)) else x for j, x in enumerate(sl)]]
+                           for eid, (t, sl) in v.items() if eid in self.info])
         return {"meta": a["bm"] is not None, "ended": a["status"] not in (None, "RUNNING"), "atts": atts}
 
 
